@@ -111,7 +111,7 @@ class ConnWorld(World):
                    "resources are tracked from normal calls only (not from one-way threads)",
                    "the harness keeps strong references to resources (the daemon tracks them weakly)",
                    "with a server COMMTIMEOUT an idle connection is dropped by design, so 'still open' connections keep talking"]
-    QUICK_RUNS = 6000
+    QUICK_RUNS = 10000
     CHUNK = 100
     SHRINK_LISTS = ["conns"]
 
